@@ -288,6 +288,10 @@ def thread_stress(n_threads=8, rounds=60):
 # ------------------------------------------------------------------------------------------------
 # part b: baton-scheduled acceptors on scripted providers
 
+class Blocked(BaseException):
+    """(holder, waiter): association `holder` had the turn and made no progress for STUCK_AFTER seconds."""
+
+
 class Baton(object):
     def __init__(self, n, order):
         self.cv = threading.Condition()
@@ -311,23 +315,36 @@ class Baton(object):
             self.current = self._choose()
             self.cv.notify_all()
 
+    STUCK_AFTER = 6.0
+
+    def _stuck(self, i):
+        # thread `current` was given the turn and did not reach its next scheduling point: all I/O is scripted, so
+        # it can only be waiting for something another association's thread holds while THAT waits for its peer
+        if self.failed is None:
+            self.failed = (self.current, i)
+        self.alive.clear()
+        self.current = None
+        self.cv.notify_all()
+        raise Blocked(self.failed)
+
     def wait_turn(self, i):
         with self.cv:
             while self.current != i:
-                if not self.cv.wait(20):
-                    self.failed = 'baton lost'
-                    raise HarnessError('baton scheduler stuck')
+                if self.failed is not None or not self.cv.wait(self.STUCK_AFTER):
+                    self._stuck(i)
 
     def yield_(self, i):
         with self.cv:
+            if self.failed is not None:
+                raise Blocked(self.failed)
             nxt = self._choose()
             if nxt != i:
                 self.switches += 1
             self.current = nxt
             self.cv.notify_all()
             while self.current != i:
-                if not self.cv.wait(20):
-                    raise HarnessError('baton scheduler stuck')
+                if self.failed is not None or not self.cv.wait(self.STUCK_AFTER):
+                    self._stuck(i)
 
     def finish(self, i):
         with self.cv:
@@ -373,7 +390,7 @@ def handler_yield():
         fn()
 
 
-def make_shared_server(storage_dir=None):
+def make_shared_server(storage_dir=None, few_classes=False):
     import pydicom
     import pynetdicom2
     from pynetdicom2 import sopclass, statuses, dimsemessages
@@ -402,7 +419,14 @@ def make_shared_server(storage_dir=None):
     if storage_dir is not None:
         # directory-backed storage as StorageAE does it
         handlers['get_file'] = lambda context, command_set: pynetdicom2._get_storage_file(context, command_set, storage_dir)
-    ae = svc.make_server(handlers, [sopclass.verification_scp, sopclass.storage_scp, sopclass.qr_find_scp], max_pdu=16384)
+    storage = sopclass.storage_scp
+    if few_classes:
+        # (an entity that also requests associations proposes everything it is configured with: keep that < 128)
+        from .c17 import alias
+        storage = alias(sopclass.storage_scp, [svc.SC_STORAGE, svc.CT_STORAGE])
+    ae = svc.make_server(handlers, [sopclass.verification_scp, storage, sopclass.qr_find_scp], max_pdu=16384)
+    if few_classes:
+        ae.add_scu(sopclass.verification_scu)         # the entity also requests associations of its own
     return ae, log
 
 
@@ -424,7 +448,7 @@ def run_acceptors(scripts, order):
     import tempfile
     import shutil
     tmpdir = tempfile.mkdtemp(prefix='vf_c20_')
-    ae, log = make_shared_server(tmpdir)
+    ae, log = make_shared_server(tmpdir, few_classes=True)
     tl = threading.local()
     duls = [None] * n
     errors = [None] * n
@@ -440,12 +464,30 @@ def run_acceptors(scripts, order):
                 baton.yield_(self.index_)
             return fd.FakeDUL.receive(self, timeout)
 
+    def requester_peer(dul, rec):
+        if rec['kind'] == 'pdu':
+            t = rec['spec'].get('t')
+            if t == 1:
+                pcs = [it for it in rec['spec']['items'] if it['t'] == 0x20]
+                return [fd.incoming_pdu(fd.ac_spec([(it['id'], 0, it['ts'][0]['name']) for it in pcs], 16384,
+                                                   rec['spec']['called'], rec['spec']['calling']))]
+            if t == 5:
+                return [fd.incoming_pdu({'t': 6, 'r1': 0, 'r2': 0})]
+            return []
+        f = {0x0002: rec['fields'].get(0x0002), 0x0100: rec['fields'].get(0x0100) | 0x8000,
+             0x0120: rec['fields'].get(0x0110), 0x0900: 0}
+        pc = rec['pc_ids'][0]
+        return [lambda: fd.incoming_msg(dul, f, None, pc)]
+
     def factory(store_in_file, get_file_cb, dul_socket=None, max_pdu_length=65536):
         j = tl.index
         d = BatonDUL(store_in_file, get_file_cb, dul_socket, max_pdu_length)
         d.index_ = j
         duls[j] = d
         sc = scripts[j]
+        if sc.get('role') == 'requester':
+            d.responder = requester_peer
+            return d
         svc.primary_plan(sc['contexts'], sc['messages'] + (['release'] if sc['end'] == 'release' else
                          [{'pdu': {'t': 7, 'r1': 0, 'r2': 0, 'r3': 0, 'source': 0, 'reason': 0}}] if sc['end'] == 'abort' else []),
                          ts=sc['ts'], max_len=sc['max_len'], calling=sc['calling'])(d)
@@ -457,6 +499,13 @@ def run_acceptors(scripts, order):
             if baton is not None:
                 YIELD_HOOK.fn = lambda: baton.yield_(j)
                 baton.wait_turn(j)
+            if scripts[j].get('role') == 'requester':
+                # the same entity requests an association of its own (as its C-MOVE / commitment code does) while
+                # it serves the others; its peer answers whenever the schedule lets it
+                with ae.request_association({'aet': scripts[j]['calling'], 'address': 'peer.example', 'port': 104}) as assoc:
+                    for k in range(scripts[j]['echoes']):
+                        assoc.get_scu(svc.VERIFICATION)(100 + k)
+                return
             asceprovider.AssociationAcceptor(fd.FakeRequest(), ('127.0.0.1', 5000 + j), ae, ae.max_pdu_length)
         except BaseException as exc:    # noqa
             errors[j] = exc
@@ -481,12 +530,25 @@ def run_acceptors(scripts, order):
 
 
 def baton_case(value):
-    k, variant, order = value
-    case = {'part': 'baton', 'k': k, 'variant': variant, 'order': order}
+    k, variant, order = value[:3]
+    requesters = value[3] if len(value) > 3 else 0
+    case = {'part': 'baton', 'k': k, 'variant': variant, 'order': order, 'requesters': requesters}
     scripts = [assoc_script(j, variant) for j in range(k)]
+    scripts += [{'role': 'requester', 'calling': 'OUT%d' % r, 'echoes': 1 + (variant + r) % 2, 'max_len': 0}
+                for r in range(requesters)]
     together, errs, switches = run_acceptors(scripts, order)
+    blocked = [e for e in errs if isinstance(e, Blocked)]
+    if blocked:
+        holder, waiter = blocked[0].args[0]
+        raise Violation('%s:baton:blocked' % PROP, 'association %d (%s) made no progress for %.0f s although it had the processor: '
+                        'it waits for something held by another association that is itself only waiting for its peer '
+                        '(%d associations, %d of them requested by the entity)'
+                        % (holder, scripts[holder].get('role', 'acceptor'), Baton.STUCK_AFTER, len(scripts), requesters), case)
+    k = len(scripts)
     for j in range(k):
         alone, errs1, _ = run_acceptors([scripts[j]], [0])
+        if scripts[j].get('role') == 'requester' and errs1[0] is not None:
+            raise HarnessError('the requesting body fails on its own: %r' % (errs1[0],))
         if errs[j] is not None or errs1[0] is not None:
             if repr(errs[j]) != repr(errs1[0]):
                 raise Violation('%s:baton:error' % PROP, 'association %d: interleaved run ended with %r, run alone with %r'
@@ -610,11 +672,12 @@ def run_negotiation(ctx, n):
 
 def shard_baton(ctx, job):
     warnings.simplefilter('ignore')
-    strat = st.tuples(st.integers(2, 4), st.integers(0, 5), st.lists(st.integers(0, 3), min_size=1, max_size=40))
+    strat = st.tuples(st.integers(2, 4), st.integers(0, 5), st.lists(st.integers(0, 4), min_size=1, max_size=40),
+                      st.sampled_from([0, 0, 1, 2]))
 
     def fn(value):
         sw = baton_case(value)
-        ctx.case(('baton', value), sw >= 2, labels=['baton', 'k=%d' % value[0], 'switches>=10' if sw >= 10 else 'switches<10'],
+        ctx.case(('baton', value), sw >= 2, labels=['baton', 'k=%d' % value[0], 'own-requests=%d' % value[3], 'switches>=10' if sw >= 10 else 'switches<10'],
                  sample={'associations': value[0], 'variant': value[1], 'order': value[2], 'baton_switches': sw})
     hyp_search(ctx, strat, fn, job['n'], name='C20-baton', max_buckets=3)
 
@@ -641,7 +704,7 @@ def run(ctx):
     ctx.rule = ('part a: N concurrent client threads (own AE title, transfer syntax, maximum PDU length, SOP-class subset, '
                 'instance UIDs and sizes; a third aborting after the first store or inside a half-consumed C-FIND '
                 'generator) against one server entity over loopback TCP, R rounds with permuted start order; part b: '
-                '2-4 AssociationAcceptor.handle() bodies sharing one AE on scripted providers, interleaved at every '
+                '2-4 AssociationAcceptor.handle() bodies plus 0-2 associations the same entity requests itself, sharing one AE on scripted providers, interleaved at every '
                 'provider send/receive and inside every application handler by a baton scheduler whose order is Hypothesis-drawn, each compared with the '
                 'same association run alone; _new_msg_id() from concurrent threads; part c: PDU encode/decode, message fragmentation (bytes and file-like), group-length computation and status classification run in 8 threads under a 1 microsecond switch interval and must equal the single-threaded results; part d: one requesting entity with 2-4 associations open at the same time on scripted peers answering with Hypothesis-drawn result codes 0-4: each association proposes all configured classes and uses exactly what its own peer accepted; non-trivial = >=2 associations '
                 'overlapping (>=2 baton switches / >=2 clients)')
@@ -683,6 +746,6 @@ def replay(case):
     elif case['part'] == 'negotiation':
         negotiation_case((case['ncls'], [[tuple(x) for x in p] for p in case['patterns']], case['fifo']))
     elif case['part'] == 'baton':
-        baton_case((case['k'], case['variant'], case['order']))
+        baton_case((case['k'], case['variant'], case['order'], case.get('requesters', 0)))
     else:
         msg_id_part(16, 200)
